@@ -233,6 +233,67 @@ def chain_clause(model, rep, funcs):
                clause="2 chain", stmt=f"def {name} chain")
 
 
+def mask_degree_clause(model, rep, funcs):
+    """The sub-volume reaches the score as pre_transform(image * mask): the mask enters once.  Every template candidate that is transformed and cached must carry
+    the mask exactly once as well (mask**2 != mask for a soft-edged mask: a sub-volume identical to the template would no longer score 1).  Decided on the symbolic
+    terms handed to pre_transform / the transform pool: the number of `self._mask` factors in the product."""
+    from ..domains.terms import T, TermDomain, subterms
+    LINEAR = {"asarray", "spline_filter", "astype", "ascontiguousarray", "copy", "array", "stack", "affine_transform", "rotated_crop", "compute"}
+
+    def has(t, attr):
+        return any(s_.op == "attr" and s_.args[1] == attr for s_ in subterms(t))
+
+    def deg(t):
+        if not isinstance(t, T):
+            return 0
+        if t.op == "attr":
+            return 1 if t.args[1] == "_mask" else (0 if not has(t, "_mask") else deg(t.args[0]))
+        if t.op == "op":
+            if t.args[0] == "Mult":
+                l, r = deg(t.args[1]), deg(t.args[2])
+                return None if l is None or r is None else l + r
+            return 0 if not has(t, "_mask") else None
+        if t.op in ("elem", "sub", "item", "computed", "listof"):
+            return deg(t.args[0])
+        if t.op == "call":
+            c = t.args[0]
+            nm = c.args[1] if isinstance(c, T) and c.op == "attr" else (str(c.args[0]).rsplit(".", 1)[-1] if isinstance(c, T) and c.op == "ext" else None)
+            if nm in LINEAR and t.args[1]:
+                return deg(t.args[1][0])
+            return 0 if not has(t, "_mask") else None
+        return 0 if not has(t, "_mask") else None
+
+    for name in ("BaseAlignmentModel._get_template_and_mask_input", "RotationImplemented._get_template_and_mask_input"):
+        f = funcs.get(AB + name)
+        if f is None:
+            continue
+        it = Interp(model, TermDomain(), depth=0)
+        seen: list = []
+
+        def on_call(interp, fn, node, callee, args, kwargs, env, _f=f, _seen=seen):
+            if fn is _f and isinstance(node.func, ast.Attribute) and node.func.attr in ("add_task", "pre_transform", "_transform_template") and args:
+                _seen.append((node, args[0]))
+
+        it.on_call.append(on_call)
+        try:
+            it.run(f, self_val=T("param", ("self",)))
+        except Exception as e:  # pragma: no cover
+            rep.note(f"{name}: not evaluated on terms ({e!r})")
+            continue
+        done = set()
+        for node, t in seen:
+            if not has(t, "_template") or id(node) in done:
+                continue
+            d = deg(t)
+            if d is None:
+                continue
+            done.add(id(node))
+            rep.instance("S11.degree", f.loc(node))
+            rep.ob("S11", AB + name, "a template candidate carries the mask exactly once when it is transformed (as the sub-volume does)", d == 1,
+                   f"`{norm_src(node)[:70]}` receives {t!r}"[:260] + f": {d} mask factor(s)", node=node, fn=f, clause="2 chain")
+    rep.floor("S11.degree", 4, "(template candidates handed to pre_transform / the transform pool)")
+
+
 # --------------------------------------------------------------------------- clause 3: landscape geometry
 def geometry_clause(model, rep, funcs):
     # origins of the cropped landscapes and the mesh encoder/decoder identity are the obligations of C05 clauses 1-2
@@ -353,6 +414,7 @@ def check(model, rep, tier):
     funcs = need_funcs(model, rep, ANCHORS)
     formula_clause(model, rep, funcs)
     chain_clause(model, rep, funcs)
+    mask_degree_clause(model, rep, funcs)
     geometry_clause(model, rep, funcs)
     padding_clause(model, rep, funcs)
     from .generic import interpolation_obligations, functions_in, axis_convention_obligations
@@ -361,3 +423,7 @@ def check(model, rep, tier):
     axis_convention_obligations(model, rep, ["acryo/backend/_upsample.py", "acryo/backend/_zncc.py", "acryo/backend/_fsc.py"], "3 geometry", floor=2)
     from .C08 import wedge_call_obligation
     wedge_call_obligation(model, rep, "2 chain")
+    from .generic import inplace_argument_obligations
+    inplace_argument_obligations(model, rep, functions_in(model, ["acryo/alignment/_base.py", "acryo/alignment/_concrete.py", "acryo/backend/_zncc.py",
+                                                                   "acryo/backend/_pcc.py", "acryo/backend/_fsc.py", "acryo/backend/_upsample.py"]), "2 chain")
+    rep.floor("PUREARG", 20, "(functions of the alignment models and backends that take arrays)")
